@@ -8,6 +8,7 @@ REGISTRY = {
     'C06': ('sim.props.c06', 'C06'),
     'C08': ('sim.props.c08', 'C08'),
     'C13': ('sim.props.c13', 'C13'),
+    'C20': ('sim.props.c20', 'C20'),
 }
 
 
